@@ -66,6 +66,12 @@ def correspond(ctx):
         cases.append(Case(f"run_collapse {coq_bool(is_ag)} {PL[plat]} 16%Z {coq_list(c for c, _ in sp)}", impl, meta))
         if isinstance(impl, core.Err) or sorted(impl) != sorted([list(x) for x in set(nets)]):
             nontrivial.add(repr((plat, is_ag, meta["texts"])))
+    # histories and foreign types, on the implementation: a result is a new object each time (editing it must not show
+    # up in a later call or in the inputs), and lists of the wrong class are refused with TypeError
+    for c in cases[:: max(1, len(cases) // (150 if ctx.tier == "quick" else 3000))]:
+        f = _history_check(ca, c.meta)
+        if f:
+            raise core.ImplViolation(dict(kind="input", kernel="K-collapse", input=dict(c.meta, history=True), failure=f))
     ctx.samples += [cases[0].meta, cases[len(cases) // 2].meta, cases[-1].meta]
     ctx.coverage["distinct_nontrivial"] = len(nontrivial)
     ctx.coverage["input_distribution"] = {"lists": len(cases), "refused": sum(isinstance(c.impl, core.Err) for c in cases),
@@ -86,9 +92,59 @@ def _covered(nets):
     return out
 
 
+def _history_check(ca, meta):
+    from cisco_acl import address, address_ag
+    plat, is_ag = meta["platform"], meta["ag"]
+    cls = ca.AddressAg if is_ag else ca.Address
+    other = ca.Address if is_ag else ca.AddressAg
+    fn = address_ag.collapse if is_ag else address.collapse
+    view = lambda res: [(o.line, o.platform, o.note, type(o).__name__) for o in res]
+    try:
+        objs = [cls(t, platform=plat, note="n") for t in meta["texts"]]
+        first = fn(objs)
+    except Exception:  # noqa
+        objs, first = None, None
+    if first is not None:
+        want = view(first)
+        before_inputs = view(objs)
+        for o in first:                      # the caller edits what it got
+            o.note = "edited"
+            try:
+                o.platform = "nxos" if plat == "ios" else "ios"
+                o.line = "host 9.9.9.9"
+            except Exception:  # noqa
+                pass
+        if view(objs) != before_inputs:
+            return {"what": "editing the result of collapse() changed the input objects"}
+        again = fn([cls(t, platform=plat, note="n") for t in meta["texts"]])
+        if view(again) != want:
+            return {"what": f"a second collapse() of the same list gives {view(again)[:3]}, the first gave {want[:3]} "
+                            f"(results of an earlier call were edited in between)"}
+        if any(a is b for a in again for b in first):
+            return {"what": "two calls of collapse() returned the same object"}
+    # a list made of the other address class is refused
+    try:
+        texts = [t for t in meta["texts"] if "/" not in t or not is_ag] or meta["texts"]
+        foreign = [other(t, platform=plat) for t in texts]
+    except Exception:  # noqa
+        foreign = None
+    if foreign:
+        try:
+            r = fn(foreign)
+            return {"what": f"{fn.__module__}.collapse() accepted a list of {other.__name__} objects and returned "
+                            f"{[o.line for o in r]} instead of raising TypeError"}
+        except TypeError:
+            pass
+        except Exception as ex:  # noqa
+            return {"what": f"collapse() of foreign objects raised {type(ex).__name__}, TypeError expected"}
+    return None
+
+
 def oracle(ctx, kernel, meta):
     ca = core.impl_module()
     from cisco_acl import address, address_ag
+    if meta.get("history"):
+        return _history_check(ca, meta)
     plat, is_ag = meta["platform"], meta["ag"]
     cls = ca.AddressAg if is_ag else ca.Address
     fn = address_ag.collapse if is_ag else address.collapse
